@@ -294,7 +294,10 @@ def inverse_part(draw, nsol, true, user_phases, present, flavour, decoy_pool):
     elif umode == "abs":
         unc = [-draw(cg.logu(1e-7, 1e-4, 2))]
     else:
-        unc = [0.0] if draw(st.booleans()) else [draw(cg.logu(1e-5, 1e-3, 2))]
+        # nearly exact analyses; a global uncertainty of exactly 0 is not generated: every model then sits on the razor edge of
+        # feasibility, where the pinned tree reports models from LPs it found infeasible (known finding F1, silent) - zero limits
+        # of single elements (-balances) are generated
+        unc = [draw(cg.logu(1e-4, 2e-3, 2))]
     inphase = set()
     for p, _, _ in phases:
         inphase |= set(phase_elements(p, user_phases))
